@@ -92,7 +92,10 @@ class C32(Property):
         for k in range(n):
             yield {'gen_seed': rng.randrange(10 ** 9),
                    'opts': {'safe_indices': True, 'shuffle_order': True, 'cycles': k % 2 == 0,
-                            'chains': rng.random() < 0.5, 'auto_ivc': rng.random() < 0.6},
+                            'chains': rng.random() < 0.5, 'auto_ivc': rng.random() < 0.6,
+                            # auto_order on a random subset of the groups (the others are declared in
+                            # data-flow order)
+                            'partial_auto_order': (k % 2 == 1) and rng.random() < 0.6},
                    # a second Problem.setup() must order the model again from the declared order
                    'resetup': rng.random() < 0.4}
 
@@ -286,9 +289,12 @@ class C32(Property):
                     return 'final order of group %r: implementation %s, model %s' % (
                         r['group'], final, mfinal)
             seen_groups.add(r['group'])
-        if set(g for g in impl['final_order']) - seen_groups:
+        expect = set(impl['final_order'])
+        if 'auto_order_groups' in md:
+            expect &= set(md['auto_order_groups'])      # only auto_order groups reorder themselves
+        if expect - seen_groups:
             return 'Group._check_order did not consult get_out_of_order_nodes for groups %s' % (
-                sorted(set(impl['final_order']) - seen_groups))
+                sorted(expect - seen_groups))
         if not md['cyclic']:
             a = answers[len(recs)]
             if not all(a['solved']):
